@@ -844,17 +844,6 @@ class Engine:
                             s.nul[v.addr_of] = ('U', None)
                 for g in self.W.gwrites.get(c, ()):
                     s.kill('G:' + g)
-                summ = self.W.fact_summ.get(c) if self.W.resolve(self.u, c) is not None else None
-                if summ is not None:
-                    done = False
-                    for tag, const in (('T', 1), ('F', 0), ('A', None)):
-                        for d in summ.get(tag, ()):
-                            s3 = self.apply_summary(s.copy(), d, vals)
-                            if s3 is not None:
-                                out.append((s3, Val(const=const)))
-                                done = True
-                    if done:
-                        continue
                 r = Val()
                 src = self.W.nullable_rets.get(c)
                 if src is not None and is_ptr_type(e.type):
@@ -872,6 +861,17 @@ class Engine:
                         r.rk = rk
                     if r.nul is None:
                         r.nul = 'NN'
+                summ = self.W.fact_summ.get(c) if self.W.resolve(self.u, c) is not None else None
+                if summ is not None:
+                    done = False
+                    for tag, const in (('T', 1), ('F', 0), ('A', None)):
+                        for d in summ.get(tag, ()):
+                            s3 = self.apply_summary(s.copy(), d, vals)
+                            if s3 is not None:
+                                out.append((s3, Val(const=const) if const is not None else r))
+                                done = True
+                    if done:
+                        continue
                 out.append((s, r))
         return out
 
